@@ -171,6 +171,17 @@ CLAIMS = {
          "(exceptions and dependent_values masks included); indexing, negative indexing, iteration and two-axis indexing of every "
          "collection class must give the element class with its attributes (is_dual, pdim, index types, covariant 3D lines).",
     design="5/C04", technique="TLC enumeration of operation x shape x single/collection mixes with a broadcast index-map spec + replay against singles"),
+ "C03": dict(
+    text="C03_Repr.tla is a state machine over stored representatives: Rescale(i, k) replaces the representative of argument i by a "
+         "non-zero multiple and the action property [][Rescale => answer' = answer]_vars must hold; every answer (==, contains, "
+         "dist, angle, cross ratio, join/meet, segment/polygon membership, polygon area, conic membership/polar, transformation "
+         "apply/compose, parallel/perpendicular/collinear/cocircular, midpoint, project, mirror, 3D variants) is computed from the "
+         "RAW representatives, so TLC certifies that the oracle itself is representative independent (negative factors, "
+         "non-primitive vectors, up to two rescalings of any arguments).  The replay multiplies each argument position (each "
+         "vertex, each matrix) of every configuration by the float factor table incl. negative factors (complex ones for the "
+         "algebraic operations) and compares with the exact answer; constructors taking points/lines as data are compared with "
+         "their unscaled call.",
+    design="5/C03", technique="TLC action property over a rescaling state machine + replay with float/complex factor table"),
 }
 
 checks = []
